@@ -153,7 +153,7 @@ func c10GenV21(t *rapid.T) grCase {
 
 func init() {
 	rule := "non-trivial = at least one conflicted key AND (a conflicted power event, or a non-empty auth difference, or a rejected event among the supplied events); v1: at least one key with two distinct events. distinct = distinct Case JSON"
-	vfRapid("C10/v1", rule, 400, 20000, 16, c10GenV1, c10Check)
-	vfRapid("C10/v2", rule, 400, 20000, 16, c10GenV2, c10Check)
-	vfRapid("C10/v2.1", rule, 400, 20000, 16, c10GenV21, c10Check)
+	vfRapid("C10/v1", rule, 1500, 30000, 16, c10GenV1, c10Check)
+	vfRapid("C10/v2", rule, 2500, 60000, 16, c10GenV2, c10Check)
+	vfRapid("C10/v2.1", rule, 2500, 60000, 16, c10GenV21, c10Check)
 }
